@@ -326,3 +326,180 @@ Proof.
   apply in_seq in Hj. apply andb_true_iff in Hb. destruct Hb as [H1 H2].
   exists j. repeat split; try lia; apply Qeq_bool_iff; assumption.
 Qed.
+
+
+(* ---------- attribute tables with arbitrary content (NaN, inf, duplicates, one row) ---------- *)
+Lemma fval_eqb_same a b : fval_eqb a b = true <-> fval_same a b.
+Proof.
+  destruct a, b; simpl; try (split; [discriminate|intros []]); try (split; auto; fail).
+  unfold Qeqb. apply Qeq_bool_iff.
+Qed.
+
+Lemma fval_eqb_refl a : fval_eqb a a = true.
+Proof. apply fval_eqb_same. destruct a; simpl; auto. reflexivity. Qed.
+
+(* a NaN row is a row: the value-level comparison does not lose it *)
+Lemma fval_same_nan : fval_same FNaN FNaN /\ fval_eqb FNaN FNaN = true.
+Proof. split; [exact I|reflexivity]. Qed.
+
+(* the Q model is the instance A = Q *)
+Lemma draw_attributes_is_g weights redshifts idx :
+  draw_attributes weights redshifts idx = draw_attributes_g 0%Q weights redshifts idx.
+Proof. reflexivity. Qed.
+
+Section AttrTableP.
+  Context {A : Type} (d : A).
+
+  Theorem joint_draw_g (ws zs : list A) idx i :
+    i < length idx ->
+    nth i (draw_attributes_g d ws zs idx) (d, d) = (nth (nth i idx 0) ws d, nth (nth i idx 0) zs d).
+  Proof.
+    intros Hi. unfold draw_attributes_g.
+    rewrite nth_indep with (d' := (fun j => (nth j ws d, nth j zs d)) 0)
+      by (rewrite map_length; exact Hi).
+    apply (map_nth (fun j => (nth j ws d, nth j zs d)) idx 0 i).
+  Qed.
+
+  Theorem joint_draw_length_g (ws zs : list A) idx : length (draw_attributes_g d ws zs idx) = length idx.
+  Proof. apply map_length. Qed.
+
+  (* every drawn pair is a ROW of the table, whatever the values are *)
+  Theorem joint_draw_rows_g (ws zs : list A) idx :
+    length ws = length zs ->
+    Forall (fun j => j < length ws) idx ->
+    forall wz, In wz (draw_attributes_g d ws zs idx) -> In wz (combine ws zs).
+  Proof.
+    intros Hl Hidx wz Hin. unfold draw_attributes_g in Hin. apply in_map_iff in Hin.
+    destruct Hin as [j [E Hj]]. subst wz. rewrite Forall_forall in Hidx. specialize (Hidx j Hj).
+    rewrite <- (combine_nth ws zs j d d Hl). apply nth_In.
+    rewrite combine_length, <- Hl, Nat.min_id. exact Hidx.
+  Qed.
+
+  (* drawing from ANY prepared table whose rows are rows of the supplied samples gives rows of
+     the supplied samples: pass-through, row selection, row permutation, row repetition *)
+  Theorem prepared_draw_rows (ws zs ws' zs' : list A) idx :
+    length ws' = length zs' ->
+    incl (combine ws' zs') (combine ws zs) ->
+    Forall (fun j => j < length ws') idx ->
+    forall wz, In wz (draw_attributes_g d ws' zs' idx) -> In wz (combine ws zs).
+  Proof.
+    intros Hl Hincl Hidx wz Hin. apply Hincl. exact (joint_draw_rows_g ws' zs' idx Hl Hidx wz Hin).
+  Qed.
+
+  Lemma split_fst_snd (l : list (A * A)) : List.split l = (map fst l, map snd l).
+  Proof.
+    induction l as [|[a b] l IH]; simpl; [reflexivity|]. rewrite IH. reflexivity.
+  Qed.
+
+  Lemma combine_map_fst_snd (l : list (A * A)) : combine (map fst l) (map snd l) = l.
+  Proof. induction l as [|[a b] l IH]; simpl; [reflexivity|]. rewrite IH. reflexivity. Qed.
+
+  (* dropping whole rows (both columns by ONE mask) keeps the two columns aligned *)
+  Theorem prepare_joint_rows (keep : A -> bool) (ws zs : list A) :
+    let t := prepare_joint keep ws zs in
+    length (fst t) = length (snd t) /\ incl (combine (fst t) (snd t)) (combine ws zs).
+  Proof.
+    unfold prepare_joint. rewrite split_fst_snd. simpl. split.
+    - rewrite !map_length. reflexivity.
+    - rewrite combine_map_fst_snd. intros wz Hin. apply filter_In in Hin. tauto.
+  Qed.
+
+  Theorem joint_filter_draw_rows (keep : A -> bool) (ws zs : list A) idx :
+    let t := prepare_joint keep ws zs in
+    Forall (fun j => j < length (fst t)) idx ->
+    forall wz, In wz (draw_attributes_g d (fst t) (snd t) idx) -> In wz (combine ws zs).
+  Proof.
+    intros t Hidx. destruct (prepare_joint_rows keep ws zs) as [Hl Hincl].
+    exact (prepared_draw_rows ws zs (fst t) (snd t) idx Hl Hincl Hidx).
+  Qed.
+
+  (* the executable checker is sound for the row property, for any sound comparison *)
+  Theorem joint_ok_g_sound (eqb : A -> A -> bool) (R : A -> A -> Prop) :
+    (forall a b, eqb a b = true -> R a b) ->
+    forall ws zs pairs, joint_ok_g d eqb ws zs pairs = true ->
+    forall wz, In wz pairs ->
+    exists j, j < length ws /\ j < length zs /\ R (fst wz) (nth j ws d) /\ R (snd wz) (nth j zs d).
+  Proof.
+    intros HR ws zs pairs H wz Hin. unfold joint_ok_g in H. rewrite forallb_forall in H.
+    specialize (H wz Hin). apply existsb_exists in H. destruct H as [j [Hj Hb]].
+    apply in_seq in Hj. apply andb_true_iff in Hb. destruct Hb as [H1 H2].
+    exists j. repeat split; try lia; apply HR; assumption.
+  Qed.
+
+  (* ... and complete: what is drawn jointly from the table passes *)
+  Theorem joint_ok_g_complete (eqb : A -> A -> bool) :
+    (forall a, eqb a a = true) ->
+    forall ws zs idx, length ws = length zs -> Forall (fun j => j < length ws) idx ->
+    joint_ok_g d eqb ws zs (draw_attributes_g d ws zs idx) = true.
+  Proof.
+    intros Hrefl ws zs idx Hl Hidx. unfold joint_ok_g, draw_attributes_g. apply forallb_forall.
+    intros wz Hin. apply in_map_iff in Hin. destruct Hin as [j [E Hj]]. subst wz.
+    rewrite Forall_forall in Hidx. specialize (Hidx j Hj).
+    apply existsb_exists. exists j. split.
+    - apply in_seq. rewrite <- Hl, Nat.min_id. lia.
+    - simpl. rewrite !Hrefl. reflexivity.
+  Qed.
+End AttrTableP.
+
+(* the index twin shows the index vector, and the draw over any table is the twin's indices
+   looked up in that table: the table content never influences WHICH rows are drawn *)
+Theorem twin_index m idx :
+  Forall (fun j => j < m) idx -> map fst (twin_attributes m idx) = idx /\ map snd (twin_attributes m idx) = idx.
+Proof.
+  intros H. unfold twin_attributes, draw_attributes_g. rewrite !map_map. simpl.
+  split; rewrite <- (map_id idx) at 2; apply map_ext_in; intros j Hj;
+    rewrite Forall_forall in H; specialize (H j Hj); rewrite seq_nth by exact H; reflexivity.
+Qed.
+
+Theorem draw_via_twin {A} (d : A) (ws zs : list A) m idx :
+  Forall (fun j => j < m) idx ->
+  draw_attributes_g d ws zs idx =
+  map (fun j => (nth j ws d, nth j zs d)) (map fst (twin_attributes m idx)).
+Proof. intros H. rewrite (proj1 (twin_index m idx H)). reflexivity. Qed.
+
+(* two columns compacted independently: the lengths can still agree while the rows do not *)
+Theorem indep_filter_refuted :
+  exists (ws zs : list fval) idx wz,
+    length ws = length zs /\
+    let t := prepare_indep fval_finite ws zs in
+    length (fst t) = length (snd t) /\
+    Forall (fun j => j < length (fst t)) idx /\
+    In wz (draw_attributes_g FNaN (fst t) (snd t) idx) /\
+    ~ In wz (combine ws zs) /\
+    joint_ok_g (FFin 0) fval_eqb ws zs [wz] = false.
+Proof.
+  exists [FNaN; FFin 2; FFin 3], [FFin (1#8); FFin (2#8); FNaN], [0], (FFin 2, FFin (1#8)). simpl.
+  split; [reflexivity|]. split; [reflexivity|]. split; [repeat constructor|].
+  split; [left; reflexivity|]. split; [|vm_compute; reflexivity].
+  intros [H|[H|[H|[]]]]; discriminate.
+Qed.
+
+(* the same table with the rows selected by ONE mask: every drawn pair is a row *)
+Example joint_filter_instance :
+  let ws := [FNaN; FFin 2; FFin 3] in
+  let zs := [FFin (1#8); FFin (2#8); FNaN] in
+  prepare_joint fval_finite ws zs = ([FFin 2], [FFin (2#8)]) /\
+  joint_ok_g (FFin 0) fval_eqb ws zs (draw_attributes_g FNaN ws zs [0; 2; 1; 0]) = true.
+Proof. vm_compute. split; reflexivity. Qed.
+
+(* status 0 of the checker means what the flags say *)
+Theorem c16_attr_case_zero k nout m ra0 ra1 dec0 dec1 ras decs ws zs wbits zbits twin coords_same pairs pbits repro :
+  c16_attr_case k nout m ra0 ra1 dec0 dec1 ras decs ws zs wbits zbits twin coords_same pairs pbits repro = 0 ->
+  nout = k /\ length pairs = k /\
+  (forall wz, In wz pairs ->
+     exists j, j < length ws /\ j < length zs /\
+               fval_same (fst wz) (nth j ws (FFin 0)) /\ fval_same (snd wz) (nth j zs (FFin 0))) /\
+  repro = true.
+Proof.
+  unfold c16_attr_case, code. simpl.
+  destruct (_ && list_eqb _ _ _); [|simpl; lia].
+  destruct ((nout =? k) && (length ras =? k) && (length decs =? k) && (length pairs =? k)) eqn:E1; [|simpl; lia].
+  destruct (in_window ra0 ra1 ras && in_window dec0 dec1 decs); [|simpl; lia].
+  destruct (joint_ok_g (FFin 0) fval_eqb ws zs pairs) eqn:E3; [|simpl; lia].
+  destruct repro; [|simpl; lia].
+  intros _. apply andb_true_iff in E1. destruct E1 as [E1 Ep]. apply andb_true_iff in E1. destruct E1 as [E1 _].
+  apply andb_true_iff in E1. destruct E1 as [E1 _].
+  apply Nat.eqb_eq in E1. apply Nat.eqb_eq in Ep.
+  repeat split; try assumption.
+  apply (joint_ok_g_sound (FFin 0) fval_eqb fval_same (fun a b => proj1 (fval_eqb_same a b)) ws zs pairs E3).
+Qed.
